@@ -176,6 +176,16 @@ def run(ctx, replay=None):
     units = [1, 70000] if q else [1, 333, 4096, 70000, 1 << 20]
     replayed = 0
     races = []
+    # does the implementation still have the shape of the Upload design (request in flight from Create on, Writes synchronous)?
+    pf = os.path.join(gen, "probe.ndjson")
+    ctx.run([uprec, "-mode", "probe", "-out", pf], ok=(0, 66))
+    probe = vlib.read_ndjson(pf)[0]
+    follows = probe["do_at_create"] and probe["write_synchronous"] and not probe["err"]
+    ctx.cov["upload_design_probe"] = probe
+    if not follows:
+        print("NOTE property=C18: the implementation no longer has the shape of the Upload design (%s); the step-by-step replay of the model's behaviours "
+              "does not apply and is skipped -- the property is judged on the recorded direction (real transport, UploadTrace) only" % json.dumps(probe))
+        units = []
     for u in units:
         of = os.path.join(gen, "replay-%d.ndjson" % u)
         info, race, err = _run_rec(ctx, [uprec, "-mode", "replay", "-scripts", sf, "-out", of, "-unit", str(u)])
@@ -216,7 +226,7 @@ def run(ctx, replay=None):
         if len(can) >= 20:
             break
     cf = os.path.join(gen, "canary.ndjson")
-    vlib.write_ndjson(cf, can)
+    vlib.write_ndjson(cf, can if follows else [])
     cof = os.path.join(gen, "canary-out.ndjson")
     ctx.run([uprec, "-mode", "replay", "-scripts", cf, "-out", cof, "-unit", "1"], ok=(0, 66))
     cres = vlib.read_ndjson(cof)
@@ -252,7 +262,8 @@ def run(ctx, replay=None):
         add("upload-real fin=%s %s" % (row["fin"], kind), {"case": {"kind": "real", "id": rid}, "observed": row})
     # canary for the trace spec: flipped Close results must be rejected
     can = []
-    for r in real[:12]:
+    # (only from uploads the specification explained: the flipped result of a rejected upload may well be the right one)
+    for r in [x for x in real if x["id"] not in rejected][:12]:
         c = copy.deepcopy(r)
         if c["events"] and c["events"][-1]["ev"] == "close":
             c["events"][-1]["res"] = "err" if c["events"][-1]["res"] == "nil" else "nil"
